@@ -294,6 +294,11 @@ def source_tokens(kind="bytes"):
     extra = [b"refs/tags/", b"refs/heads/", b"refs/", b"HEAD", b"tags/", b"v1.0", b"swh:", b"swh:1:", b"git", b"tag ", b"object ",
              b"tree ", b"parent ", b"author ", b"committer ", b"tagger ", b"gpgsig", b"-----BEGIN PGP SIGNATURE-----", b"https://",
              b"http://", b"file://", b"git+ssh://", b"origin", b"master", b"main", b".git", b"None", b"null", b"true", b"0", b"-0000"]
+    # values that look like OTHER domain objects (a decoder that "helpfully" recognises them changes what a field means)
+    hx40, hx64 = b"0123456789abcdef0123456789abcdef01234567", b"ab" * 32
+    extra += [b"swh:1:%s:%s" % (k, hx40) for k in (b"cnt", b"dir", b"rev", b"rel", b"snp", b"ori", b"emd")]
+    extra += [b"swh:1:cnt:" + hx40 + b";origin=https://e.org/r", hx40, hx64, b"2020-02-27T13:39:19+00:00", b"1234567890", b"-1",
+              b"1.5", b"https://example.org/repo.git", b"b'bytes'", b"{}", b"[]", b"refs/heads/main"]
     toks = sorted(found | set(extra))
     _SOURCE_TOKENS["bytes"] = toks
     _SOURCE_TOKENS["str"] = sorted({t.decode("utf-8", "replace") for t in toks})
